@@ -213,7 +213,7 @@ void h_force_disconnect(void) { struct ll* s; W_state = nondet_int(); W_reason =
 UNITS.append(dict(name='force_disconnect', extracts=FD_EX, code=FD_CODE, enforce=['force_disconnect'], replace=[]))
 # link_layer::adv_received (contract in lle.py): 'connection requested' is reported once per accepted connection request, after the connection data was renewed
 import lle
-UNITS.append(lle.unit(['adv_received', 'll_end_event'], name='connect'))
+UNITS.append(lle.unit(['adv_received', 'll_end_event'], name='connect', defines=['C29_CLAUSES']))
 META = dict(
     level='other',
     explanation="The mechanism between the link layer (interrupt context) and the application's call backs, connection_callbacks.hpp, real bodies: every producer "
